@@ -404,10 +404,28 @@ impl<'a> Ctx<'a> {
             }
             16 | 17 if depth > 0 => {
                 let n = self.rng.range(0, 3);
-                let i = if self.rng.chance(1, 2) { Some(self.fresh_name("i")) } else { None };
+                // the loop variable is a fresh name, or (one time in four) the name of a live
+                // numeric local / enclosing loop variable, which it then shadows
+                let nv = self.num_vars();
+                let i = if self.rng.chance(1, 2) {
+                    if !nv.is_empty() && self.rng.chance(1, 4) { Some(self.rng.pick(&nv).clone()) } else { Some(self.fresh_name("i")) }
+                } else {
+                    None
+                };
                 self.scopes.push(i.iter().cloned().collect());
                 let k = self.rng.range(1, 3) as usize;
-                let body = composite(self.stmts(k, d, true));
+                let mut cards = vec![];
+                if let Some(iv) = &i {
+                    if self.rng.chance(1, 3) {
+                        // the body assigns to its own loop variable and publishes it: the loop
+                        // control must not be affected
+                        cards.push(Card::set_var(iv.clone(), bin(CardBody::Add, read(iv), int(10))));
+                        let g = self.set_global(read(iv));
+                        cards.push(g);
+                    }
+                }
+                cards.extend(self.stmts(k, d, true));
+                let body = composite(cards);
                 self.scopes.pop();
                 c(CardBody::Repeat(Box::new(Repeat { i, n: int(n), body })))
             }
@@ -674,7 +692,26 @@ pub fn gen_alloc_program(rng: &mut Rng, size: usize, with_submodules: bool) -> M
             Card::set_var("row", bin(CardBody::Get, read(&"t0".to_string()), int(0))),
         ]),
     }))));
-    match rng.below(4) {
+    match rng.below(6) {
+        4 | 5 => {
+            // min/max by a key function that returns FRESH heap keys of different order rank
+            // (strings compare by length): the best key changes in the middle of the scan and
+            // later keys are allocated while the native holds the best one
+            let vals: Vec<i64> = (0..rng.range(3, 7)).map(|_| rng.range(0, 5)).collect();
+            pre.push(Card::set_var("t5", c(CardBody::Array(vals.iter().map(|v| int(*v)).collect()))));
+            let pivot = rng.range(1, 4);
+            let short = "s".repeat(rng.range(0, 2) as usize);
+            let long = "l".repeat(rng.range(3, 6) as usize);
+            let keyfn = c(CardBody::Closure(Box::new(Function {
+                arguments: vec!["key".into(), "val".into()],
+                cards: vec![
+                    bin(CardBody::IfTrue, bin(CardBody::Less, read(&"val".to_string()), int(pivot)), Card::return_card(c(CardBody::StringLiteral(short)))),
+                    Card::return_card(c(CardBody::StringLiteral(long))),
+                ],
+            })));
+            let name = *rng.pick(&["std.min_by_key", "std.max_by_key", "std.sorted_by_key"]);
+            pre.push(Card::set_global_var("outa", Card::call_function(name, vec![keyfn, read(&"t5".to_string())])));
+        }
         0 => pre.push(Card::set_global_var("outa", Card::call_function("std.sorted_by_key", vec![
             c(CardBody::Closure(Box::new(Function { arguments: vec!["key".into(), "val".into()], cards: vec![Card::return_card(Card::call_native("mktable", vec![read(&"key".to_string())]))] }))),
             read(&"t00".to_string()),
